@@ -236,3 +236,10 @@ Lemma tj3set_table_boundaries :
      forallb (fun v => set_result_ok t ic id v) [p_lo t - 1; p_lo t; p_lo t + 1; p_hi t - 1; p_hi t; p_hi t + 1; -1; 0; 1; 2147483647])
      [true; false]) [true; false]) tj3set_table = true.
 Proof. vm_cast_no_check (eq_refl true). Qed.
+
+(* the model's jpeg_abort takes the image-pool share out of the allocation total (per the regenerated
+   free_pool facts) *)
+Lemma abortc_clears :
+  forall en o x, let x' := fst (exec en (abortc o) x) in
+  sc (xs x') (img_small o) = 0 /\ sc (xs x') (img_large o) = 0.
+Proof. intros en o x. destruct o; vm_compute; auto. Qed.
